@@ -44,9 +44,40 @@ func (fc *FnCtx) assumePkgInvs(st *State) {
 
 func (fc *FnCtx) assertPkgInvs(st *State, where string, pos token.Pos) {
 	for i, inv := range fc.pkgInvs() {
-		t := fc.invTerm(st, inv)
-		fc.assert(st, fmt.Sprintf("inv-global#%s@%s", clauseLabel(inv, i), where), "inv-global", t, pos, "invariant "+inv.Src)
+		fc.assertInv(st, inv, fmt.Sprintf("inv-global#%s@%s", clauseLabel(inv, i), where), pos, "invariant "+inv.Src)
 	}
+}
+
+// assertInv emits the obligation that a package invariant holds in st. When every location the invariant reads
+// still has the value it had at function entry (where the invariant was assumed), the obligation is discharged
+// by that observation alone and no solver is asked.
+func (fc *FnCtx) assertInv(st *State, inv *Clause, name string, pos token.Pos, text string) {
+	if st.dead() {
+		return
+	}
+	if fc.invUnchanged(st, inv) {
+		if fc.pass == 2 && fc.dry == 0 {
+			fc.obls = append(fc.obls, &Obligation{Name: fc.name + "/" + name, Class: "inv-global", Func: fc.name, Pos: fc.posStr(pos), Text: text, Answer: "unsat", Backend: "frame", Output: "every location the invariant reads is unchanged since function entry, where it was assumed"})
+		}
+		return
+	}
+	fc.assert(st, name, "inv-global", fc.invTerm(st, inv), pos, text)
+}
+
+// invUnchanged: all state keys the invariant reads have, in st, the very terms they had at entry.
+func (fc *FnCtx) invUnchanged(st *State, inv *Clause) bool {
+	ks := fc.invKeys[inv]
+	if len(ks) == 0 || fc.entry == nil {
+		return false
+	}
+	for k := range ks {
+		a, ok1 := st.vars[k]
+		b, ok2 := fc.entry.vars[k]
+		if !ok1 || !ok2 || a.S != b.S {
+			return false
+		}
+	}
+	return true
 }
 
 // invsTouchedBy: invariants that read any of the given keys.
